@@ -199,7 +199,7 @@ func init() {
 		}})
 
 	register(&Obligation{ID: "C15.c", Props: []string{"C15"}, Template: "guard+order-domain",
-		Desc: "evaluateClusterStatus pauses a running job iff Assembly.Healthy is false (and then stops the checkpoint ticker); Healthy checks every source runner and operator; Registry.Purge removes dead ids from both maps; LivenessTracker.Purge drops a node iff lastHeartbeat < now - deadline",
+		Desc: "evaluateClusterStatus pauses a running job iff Assembly.Healthy is false (and then stops the checkpoint ticker); Healthy checks every source runner and operator; Registry.Purge removes dead ids from both maps; LivenessTracker.Purge drops a node iff lastHeartbeat < now - deadline; expired nodes are purged before the health check and before a new assembly is chosen",
 		Run: func(r *Run) {
 			f := r.P.Func("jobs", "(*Job).evaluateClusterStatus")
 			info := f.Pkg.TypesInfo
@@ -254,6 +254,14 @@ func init() {
 			r.Site(f.Decl.Pos(), "evaluateClusterStatus: Running -> Paused iff unhealthy")
 			if nPause == 0 {
 				r.Fail(f.Name()+":never-pauses", f.Decl.Pos(), nil, "evaluateClusterStatus never pauses the job")
+			}
+			// nodes whose heartbeat expired are purged before the registry is consulted: both the
+			// health check of the running assembly and the choice of members for a new one
+			purge := r.P.FuncObj("jobs", "(*Registry).Purge")
+			newAsm := r.P.FuncObj("jobs", "(*Registry).NewAssembly")
+			r.mustPrecede(f.Decl, f.Name(), "Registry.Purge", "Assembly.Healthy", callTo(purge), callTo(healthy))
+			if n := r.mustPrecede(f.Decl, f.Name(), "Registry.Purge", "Registry.NewAssembly", callTo(purge), callTo(newAsm)); n == 0 {
+				r.Fail(f.Name()+":no-assembly", f.Decl.Pos(), nil, "evaluateClusterStatus no longer builds a new assembly")
 			}
 			// Healthy: two loops, each `if !registry.HasX(m) { return false, ... }`, final return true
 			h := r.P.Func("jobs", "(*Assembly).Healthy")
